@@ -120,7 +120,18 @@ func (p *Prog) funcValueOf(v ssa.Value) *ssa.Function {
 			return f
 		}
 	case *ssa.MakeClosure:
-		return x.Fn.(*ssa.Function)
+		f := x.Fn.(*ssa.Function)
+		if f.Synthetic != "" && len(f.Blocks) == 1 {
+			// a bound method value (x.m): the method
+			for _, in := range f.Blocks[0].Instrs {
+				if cl, ok := in.(*ssa.Call); ok {
+					if t := cl.Call.StaticCallee(); t != nil && p.IsLocal(t) {
+						return t
+					}
+				}
+			}
+		}
+		return f
 	case *ssa.ChangeType:
 		return p.funcValueOf(x.X)
 	case *ssa.Parameter:
